@@ -22,7 +22,7 @@ REQUIRED_COUNTERS = {"quick": {"stencil_rows_checked": 500, "nullspace_checked":
                      "thorough": {"stencil_rows_checked": 3000, "nullspace_checked": 200, "gmrf_rank_logdet_checked": 150, "mrf_density_checked": 400}}
 
 def _ranges(tier):
-    return (range(2, 13), range(2, 6)) if tier == "quick" else (range(2, 25), range(2, 9))
+    return (range(2, 13), range(2, 6)) if tier == "quick" else (range(2, 41), range(2, 13))
 
 def cases(tier, seed):
     r1, r2 = _ranges(tier)
@@ -43,7 +43,9 @@ def cases(tier, seed):
                     if N ** pd < 3:
                         continue
                     out.append({"kind": "prec", "N": N, "bc": bc, "order": order, "pd": pd})
-                    for variant in range(2):
+                    # variant 0/1: a fresh object per precision; 2: one object whose prec is re-assigned
+                    # (history); 3: conditioned copies of one object with a callable precision (as Gibbs does)
+                    for variant in range(4):
                         out.append({"kind": "gmrf", "N": N, "bc": bc, "order": order, "pd": pd, "variant": variant})
             for bc in ("zero", "periodic", "neumann"):
                 for variant in range(2):
@@ -149,8 +151,22 @@ def run_case(case, ctx):
         Pref = R.T @ R
         deltas = (0.7, 3.1) if variant == 0 else (float(rs.uniform(0.1, 10)), float(rs.uniform(10, 50)))
         consts, quad_ok = [], True
+        g_hist = None
         for delta in deltas:
-            g = cuqi.distribution.GMRF(shift, delta, bc_type=bc, order=order, geometry=geom, name="x")
+            if variant <= 1:
+                g = cuqi.distribution.GMRF(shift, delta, bc_type=bc, order=order, geometry=geom, name="x")
+            elif variant == 2:      # same object, precision re-assigned after everything was read once
+                if g_hist is None:
+                    g_hist = cuqi.distribution.GMRF(shift, delta, bc_type=bc, order=order, geometry=geom, name="x")
+                else:
+                    g_hist.prec = delta
+                    ctx.count("prec_reassigned")
+                g = g_hist
+            else:                   # conditioned copies of one conditional object
+                if g_hist is None:
+                    g_hist = cuqi.distribution.GMRF(shift, lambda d: d, bc_type=bc, order=order, geometry=geom, name="x")
+                g = g_hist(d=delta)
+                ctx.count("conditioned_copy")
             consts.append(float(g.logpdf(shift)))
             for _ in range(3 if np.isfinite(consts[-1]) else 0):
                 x = shift + rs.standard_normal(n)
